@@ -293,24 +293,25 @@ def rule_LAY(FA):
             continue
         p = record_profile(FA, rec['owner'], rec['field'])
         problems = []
+        undecided = []
         rsteps = p['step_shr'] | {x for x in p['abs_shr'] if x < 40}
-        masks = p['masks']
-        if not rsteps:
-            problems.append('no per-field shift applied to a value read from `%s`' % rec['field'])
-        if not masks:
-            problems.append('no field mask applied to a value read from `%s`' % rec['field'])
+        masks = {m for m in p['masks'] if m < (1 << 32)}      # wider masks cut out a region (e.g. everything below the absolute counter), not one field
         wsteps = p['step_shl'] | {x for x in p['abs_shl'] if x < 40}
-        if not wsteps:
-            problems.append('no per-field shift in the computation of the values stored into `%s`' % rec['field'])
         rsuper = {x for x in p['abs_shr'] if x >= 40}
         wsuper = {x for x in p['abs_shl'] if x >= 40}
-        if len(rsteps) != 1:
+        # Only a POSITIVE disagreement is a violation; a side that was not recognised (the packing was rewritten in a form the
+        # dataflow does not follow) leaves the comparison undecided.
+        if not rsteps:
+            undecided.append('no per-field shift applied to a value read from `%s` was recognised' % rec['field'])
+        if not wsteps:
+            undecided.append('no per-field shift in the computation of the values stored into `%s` was recognised' % rec['field'])
+        if len(rsteps) > 1:
             problems.append('readers disagree on the field width: %s' % sorted(rsteps))
-        if len(wsteps) != 1:
+        if len(wsteps) > 1:
             problems.append('writers disagree on the field width: %s' % sorted(wsteps))
-        if rsteps != wsteps:
+        if rsteps and wsteps and rsteps != wsteps:
             problems.append('writer shifts fields by %s but readers by %s' % (sorted(wsteps), sorted(rsteps)))
-        w = next(iter(rsteps)) if len(rsteps) == 1 else None
+        w = next(iter(rsteps)) if len(rsteps) == 1 else (next(iter(wsteps)) if len(wsteps) == 1 and not rsteps else None)
         if w is not None:
             for m in masks:
                 if m != (1 << w) - 1:
@@ -318,10 +319,11 @@ def rule_LAY(FA):
             if (1 << w) <= rec['max_count']:
                 problems.append('%d-bit field cannot hold the largest in-block count %d' % (w, rec['max_count']))
             if rec['super_bits']:
-                if len(rsuper) != 1 or len(wsuper) != 1 or rsuper != wsuper:
+                if len(rsuper) > 1 or len(wsuper) > 1 or (rsuper and wsuper and rsuper != wsuper):
                     problems.append('absolute counter position differs: readers %s, writers %s' % (sorted(rsuper), sorted(wsuper)))
-                else:
-                    S = next(iter(rsuper))
+                elif not rsuper or not wsuper:
+                    undecided.append('position of the absolute counter not recognised on the %s side' % ('reader' if not rsuper else 'writer'))
+                for S in (rsuper | wsuper):
                     if rec['fields'] * w > S:
                         problems.append('%d fields of %d bits overlap the absolute counter at bit %d' % (rec['fields'], w, S))
                     if rec['word'] - S < rec['super_bits']:
@@ -329,11 +331,14 @@ def rule_LAY(FA):
             else:
                 if rec['fields'] * w > rec['word']:
                     problems.append('%d fields of %d bits do not fit a %d-bit word' % (rec['fields'], w, rec['word']))
+        problems = sorted(set(problems))
         sample = {'field_bits': w, 'reader_steps': sorted(rsteps), 'writer_steps': sorted(wsteps), 'masks': sorted(masks),
                   'super_shift_readers': sorted(rsuper), 'super_shift_writers': sorted(wsuper),
                   'reader_functions': sorted(p['reader_fns']), 'writer_functions': sorted(p['writer_fns'])}
         if problems:
             out.append(Inst('R-LAY', key, 'violation', '', '; '.join(problems), props, sample=sample))
+        elif undecided:
+            out.append(Inst('R-LAY', key, 'note', '', '; '.join(undecided) + ': writer / reader agreement not decided', props, sample=sample, nontrivial=False))
         else:
             out.append(Inst('R-LAY', key, 'ok', '', 'writer and readers agree: %d fields x %d bits, mask %s, absolute counter at bit %s' % (
                 rec['fields'], w, ','.join('%#x' % m for m in sorted(masks)), sorted(rsuper) or '-'), props, sample=sample))
@@ -354,7 +359,7 @@ def rule_LAY(FA):
     wbs = _const(FA, 'bitvector::rs_wide::BLOCK_SIZE')
     if need('rs_wide hint period', wb) and need('rs_wide hint period', wh1) and need('rs_wide hint period', wh0) and need('rs_wide', wbs):
         ok = wh1 > wb * 64 and wh0 > wb * 64
-        rel.append(('RSWide hint period > superblock bits', 'ok' if ok else 'violation', 'SELECT_*_PER_HINT = %d/%d, superblock = %d bits' % (wh1, wh0, wb * 64), ['C06']))
+        rel.append(('RSWide hint period > superblock bits', 'ok' if ok else 'violation', 'SELECT_*_PER_HINT = %d/%d, superblock = %d bits' % (wh1, wh0, wb * 64), ['C06', 'C14']))
         ok = wb == 8 * wbs and wbs * 64 == 512
         rel.append(('RSWide block geometry', 'ok' if ok else 'violation', 'superblock = %d words, block = %d words (8 blocks of one 512-bit line)' % (wb, wbs), ['C06']))
     b1, b2 = _const(FA, 'RSSupportPlain::BLOCKS_IN_SUPERBLOCK'), _const(FA, 'SuperblockPlain::BLOCKS_IN_SUPERBLOCK')
@@ -397,7 +402,7 @@ def rule_LAY(FA):
             comp = ty.endswith(', true>')
             if bool(huff) != comp:
                 problems.append('name %s compressed, type %s' % ('says' if huff else 'does not say', 'is' if comp else 'is not'))
-        props = ['C14', 'C09'] + (['C02'] if huff and kind == 'QWT' else ['C01'] if kind == 'QWT' else ['C03'] if kind == 'WT' else ['C05'])
+        props = ['C14', 'C09'] + (['C02', 'C15'] if huff and kind == 'QWT' else ['C01'] if kind == 'QWT' else ['C03', 'C15'] if kind == 'WT' else ['C05'])
         out.append(Inst('R-LAY', 'R-LAY|d|alias %s' % short, 'violation' if problems else 'ok', 'src/lib.rs',
                         '; '.join(problems) if problems else '%s = %s' % (short, ty.replace('qvector::rs_qvector::rs_support_plain::', '').replace('qvector::rs_qvector::', '')[:110]), props))
     if FA.aliases is not None and n_al == 0:
@@ -413,10 +418,11 @@ def rule_LAY(FA):
             out.append(Inst('R-LAY', 'R-LAY|overhead|RSQVector%d' % B, 'ok' if ok else 'violation', '',
                             'rank counters: %d B per %d B of data = %.4f (bound %.4f); select samples %.5f' % (sb['size'], data_bytes, r, bound, samp), ['C14'],
                             sample={'superblock_bytes': sb['size'], 'data_bytes': data_bytes, 'ratio': r}))
-    if wb and wh1:
-        r = 16 / (wb * 8) + 8 / (wh1 / 8) * 2
+    if wb and wh1 and wh0:
+        # worst case of each hint table: all bits are ones (resp. zeros)
+        r = 16 / (wb * 8) + max(8 / (wh1 / 8), 8 / (wh0 / 8))
         out.append(Inst('R-LAY', 'R-LAY|overhead|RSWide', 'ok' if r <= 0.05 else 'violation', '',
-                        'one u128 per %d bytes of data + two hint words per %d bits = %.4f (bound 0.05)' % (wb * 8, wh1, r), ['C14'], sample={'ratio': r}))
+                        'one u128 per %d bytes of data + one hint word per %d ones / %d zeros = %.4f (bound 0.05)' % (wb * 8, wh1, wh0, r), ['C14'], sample={'ratio': r}))
     # prefetch support sampling rate: 4 bits per 2^k symbols
     n_pfs = 0
     for base in ('quadwt::QWaveletTree', 'quadwt::huffqwt::HuffQWaveletTree'):
@@ -724,6 +730,8 @@ def rule_SMP(FA):
                             if isinstance(outer, tuple) and outer[:2] == ('bin', 'Add') and ('const', 1) in (outer[2], outer[3]) \
                                     and st in (strip_casts(outer[2]), strip_casts(outer[3])):
                                 next_plus_one = True
+    if len(sent) > 1:
+        sent = []   # ids are also derived from `superblocks.len()` elsewhere: which push is the sentinel is not decided
     if sent and not all(i for i, _, _ in sent):
         problems.append('the sentinel pushed after the last sample is `%s`, not the id of the last superblock (`superblocks.len() - 1`): samples are inclusive superblock ids' % [v for i, v, _ in sent if not i][0])
     if next_plus_one is False:
@@ -878,22 +886,37 @@ def rule_HINT(FA):
             n += 1
             roots = {r for r in _roots(F, quot) if isinstance(r, int)}
             fresh = []
-            for r in roots:
-                for d in F.defs.get(r, []):
-                    if d[1] != 'assign':
+
+            def is_fresh(l, depth=0, seen=None):
+                """l has a definition that dominates the test and adds a popcount of the current item, directly or through
+                other variables (`n_zeros = (b + 1) * 512 - n_ones` with `n_ones += block_ones` just before)"""
+                seen = seen if seen is not None else set()
+                if l in seen or depth > 4:
+                    return False
+                seen.add(l)
+                for d in F.defs.get(l, []):
+                    if d[1] != 'assign' or d[0] not in dom[bi]:
                         continue
                     rv = d[2]
                     # look through `x = move (tmp.0)` of checked arithmetic
                     for _ in range(3):
-                        if rv['k'] == 'use' and 'p' in rv['a']:
+                        if rv['k'] in ('use', 'cast') and 'p' in rv['a']:
                             d3 = F.defs.get(rv['a']['p']['l'], [])
                             if len(d3) == 1 and d3[0][1] == 'assign':
                                 rv = d3[0][2]
                                 continue
                         break
-                    if rv['k'] == 'bin' and rv['op'].startswith('Add'):
-                        if any(_derives_from_popcall(F, rv[k]) for k in ('a', 'b')) and d[0] in dom[bi]:
-                            fresh.append(F.names.get(r))
+                    if rv['k'] == 'bin':
+                        if rv['op'].startswith('Add') and any(_derives_from_popcall(F, rv[k]) for k in ('a', 'b')):
+                            return True
+                        for k in ('a', 'b'):
+                            for r2 in _roots(F, rv[k]):
+                                if isinstance(r2, int) and r2 != l and is_fresh(r2, depth + 1, seen):
+                                    return True
+                return False
+            for r in roots:
+                if is_fresh(r):
+                    fresh.append(F.names.get(r))
             key = 'R-HINT|%s::new|%s' % (base, '+'.join(sorted(F.names.get(r, '?') for r in roots)))
             if fresh:
                 out.append(Inst('R-HINT', key, 'ok', t.get('line', ''), 'hint test reads `%s`, updated from the current line\'s popcount before the test' % ', '.join(sorted(set(fresh))), props,
@@ -904,5 +927,7 @@ def rule_HINT(FA):
                                     ', '.join(sorted(F.names.get(r, '?') for r in roots))), props,
                                 sample={'numerator_variables': sorted(F.names.get(r, '?') for r in roots)}))
         if n < 2:
-            out.append(Inst('R-HINT', 'R-HINT|%s::new|tests' % base, 'violation', f['span'], 'expected two hint tests (ones, zeros), found %d (anchor lost)' % n, props))
+            # the crossing of a hint period may be tested in another form (`before / H != after / H`, `.. >= samples.len()`):
+            # not recognised means not decided
+            out.append(Inst('R-HINT', 'R-HINT|%s::new|tests' % base, 'note', f['span'], 'hint tests of the form `count / PER_HINT > cur_hint` found: %d of 2; the others are written in a form the rule does not interpret' % n, props, nontrivial=False))
     return out
